@@ -73,6 +73,8 @@ func init() {
 			{Pkg: "wire", Entry: "VerifH09a", What: "DataRow = reference framing; NULL stays NULL; empty stays empty",
 				Quick: map[string]int{"COLS": 2, "VLEN": 1}, Thorough: map[string]int{"COLS": 3, "VLEN": 2},
 				Witnesses: []string{"unencodable", "typed-null", "non-null-empty"}},
+			{Pkg: "wire", Entry: "VerifH09d", What: "RowDescription carries every column field (all symbolic) in protocol order with the format by rule",
+				Quick: map[string]int{"COLS": 2}, Witnesses: []string{"two-columns"}},
 			{Pkg: "wire", Entry: "VerifH09w", What: "wrong arity rejected, nothing emitted",
 				Quick: map[string]int{}, Witnesses: []string{"wrong-arity"}},
 		},
